@@ -16,7 +16,7 @@ import (
 
 var dbgT *testing.T
 
-const allProps = "C01,C04,C05,C06,C07,C09,C10,C11"
+const allProps = "C01,C02,C04,C05,C06,C07,C08,C09,C10,C11,C12"
 
 func init() {
 	registry.Checks["DBG"] = func(c *vx.Ctx) {
@@ -25,7 +25,11 @@ func init() {
 			hist = strings.Split(h, " ")
 		}
 		mode := os.Getenv("VERIF_MODE")
-		job := vx.Job{Exec: "mirror", Hist: hist, Args: map[string]string{"props": allProps, "results": "1", "mode": mode, "seed": os.Getenv("VERIF_SEEDLEN")}}
+		ex := "mirror"
+		if os.Getenv("VERIF_EXEC") != "" {
+			ex = os.Getenv("VERIF_EXEC")
+		}
+		job := vx.Job{Exec: ex, Hist: hist, Args: map[string]string{"props": allProps, "results": "1", "mode": mode, "seed": os.Getenv("VERIF_SEEDLEN")}}
 		if n, _ := strconv.Atoi(os.Getenv("VERIF_INPROC")); n > 0 {
 			f, _ := os.Create("/tmp/hmirror.prof")
 			pprof.StartCPUProfile(f)
@@ -103,6 +107,46 @@ func init() {
 	registry.Checks["C06"] = mirrorCheck("C06", "C06", ruleCommon+"every vote summary seen (views, gossip, state machine) is recomputed from the signer bitsets; every voting-round change must be justified by distinct validators' delivered votes; non-trivial as C01")
 	registry.Checks["C07"] = mirrorCheck("C07", "C07", ruleCommon+"after every event the voting and committing views' validator sets must equal the chain-prescribed set, match the next-set hashes of the header committed below, and hash to their own hashes; non-trivial as C01")
 	registry.Checks["C11"] = mirrorCheck("C11", "C11", ruleCommon+"per-consumer monitors over everything the gossip and state-machine consumers received (strictly increasing versions, growing proposals and signer sets), currency after the final drain, nil-round precommits delivered; non-trivial as C01")
+}
+
+const ruleNode = "executions = one complete real engine (tmengine.New: mirror + state machine + consensus manager) in a synctest bubble with the harness as network, consensus strategy (every call blocks until released), round timer, driver and gossip consumer; benign 54-event script over 6 heights (validator sets change every height from 3, own key absent at height 5, one nil round by proposal timeout) with every single deviation (insert any alphabet event at any position, drop any scripted event, replace any strategy answer), in the thorough tier pairs of core deviations over the first 3 heights, plus BFS with canonical-state dedup from 4 script prefixes; trace monitors run at every quiescent point; "
+
+func nodeCheck(prop string, props string, rule string, withMirror bool) func(c *vx.Ctx) {
+	return func(c *vx.Ctx) {
+		c.Level = "model_checking"
+		c.Rule = rule
+		st := &exploreStats{keys: map[string]struct{}{}}
+		maxDev, depth := 1, 1
+		if !c.Quick() {
+			maxDev, depth = 2, 2
+		}
+		n := 0
+		each := func(j vx.Job, r vx.Result) {
+			n++
+			if n%997 == 1 {
+				c.Sample(map[string]any{"harness": j.Exec, "deviations_or_events": j.Hist, "mode": j.Args["mode"], "seed_prefix": j.Args["seed"], "outcome": r.Outcome})
+			}
+		}
+		exploreNode(c, props, maxDev, depth, st, each)
+		if withMirror {
+			mdev, mdepth := 1, 2
+			if !c.Quick() {
+				mdev, mdepth = 2, 3
+			}
+			exploreDeviations(c, props, mdev, st, each)
+			exploreBFS(c, props, []int{0, 7, 16, 22}, mdepth, alphabet("core"), st, each)
+		}
+		c.Assume("testing/synctest quiescence; one environment event at a time")
+		c.Assume("4 validators, one Byzantine (<1/3 power); honest validators precommit only the honest block or nil")
+		c.Assume("the strategy only answers with a block it was offered, nil, or not-ready")
+	}
+}
+
+func init() {
+	registry.Checks["ALLN"] = nodeCheck("ALLN", allProps, ruleNode, false)
+	registry.Checks["C02"] = nodeCheck("C02", "C02", ruleNode+"the signer wrapper records every signed content (at most one distinct content per kind/height/round across restarts), and the round-store wrapper checks at the instant the mirror persists a vote of this validator that the action store already holds it; non-trivial = execution in which the validator signed something or a header was committed, distinct by final canonical state", false)
+	registry.Checks["C08"] = nodeCheck("C08", "C08", ruleNode+"monitors: finalize only after a deliverable precommit majority for that block/round or a committed header; next height only after the finalization was stored; next round only with a nil quorum, full precommit presence, fired precommit delay or later-round minority; one Choose, no Consider/Choose after the prevote was chosen, one Decide and a Decide whenever one is due; positions strictly forward; calls and votes for the current round only, vote targets equal the strategy's answers; non-trivial as C02", false)
+	registry.Checks["C12"] = nodeCheck("C12", "C12", ruleNode+"at every quiescent point: at most one step timer outstanding, it belongs to the state machine's current round and matches its step, a proposal timer is armed whenever the machine still awaits a proposal; (part b, the production StandardRoundTimer under all interleavings, is exploreTimer) non-trivial as C02", false)
 }
 
 var _ = registry
